@@ -96,6 +96,9 @@ func (fr *Frame) callStatic(callee *ssa.Function, c *ssa.CallCommon, args []Val,
 	if v, ok := fr.modelExternal(callee, c, args, resT, cond, st); ok {
 		return v
 	}
+	if qualifiedName(callee) == RepoModule+"/internal/pkg/regex.Match" && len(args) == 2 && args[0].Re != nil {
+		return fr.modelRegexMatch(*args[0].Re, args[1], resT, cond, st)
+	}
 	sp := vc.W.SpecFor(callee)
 	if fr.top.inlineInits && callee.Blocks != nil && strings.HasPrefix(callee.Name(), "init#") && IsRepo(callee) {
 		if sp != nil && sp.Trusted {
@@ -1347,4 +1350,38 @@ func (fr *Frame) linkFuncValue(f *ssa.Function) {
 		body = append(body, env.compileBool(en.Expr))
 	}
 	vc.fact(fmt.Sprintf("(forall (%s) (! (and %s) :pattern (%s) :pattern (%s)))", strings.Join(decls, " "), strings.Join(body, " "), dyn, app))
+}
+
+
+// modelRegexMatch gives regex.Match(r, s) for a constant pattern its meaning: ok is membership;
+// when ok, the map holds one entry per named group, bound by a decomposition of s along the
+// pattern (see RegexCaptures). regex.Match itself (12 lines over FindStringSubmatch/SubexpNames)
+// is trusted to implement exactly that (A9).
+func (fr *Frame) modelRegexMatch(pattern string, s Val, resT types.Type, cond string, st *State) Val {
+	vc := fr.vc
+	vc.Assumed["A9: regex.Match(r, s) returns (r matches s, named groups of SOME decomposition of s along r); trusted 12-line wrapper over FindStringSubmatch"] = true
+	x := vc.term(st, s)
+	re, err := RegexToSMT(pattern)
+	if err != nil {
+		vc.outside("regex translation of %q: %v", pattern, err)
+		return fr.freshResult(resT)
+	}
+	ok := vc.define("match_ok", "Bool", fmt.Sprintf("(str.in_re %s %s)", x, re))
+	tup := resT.(*types.Tuple)
+	mt := tup.At(1).Type()
+	ms := vc.S.Sort(mt)
+	c, caps, order, err := RegexCaptures(pattern, x, func(p string) string { return vc.fresh(p, "String") })
+	if err != nil {
+		vc.warn("regex.Match: captures of %q not modelled: %v", pattern, err)
+		return Val{T: resT, Tuple: []Val{{T: types.Typ[types.Bool], Term: ok}, {T: mt, Term: vc.fresh("match_groups", ms)}}}
+	}
+	vc.fact(implies(ok, c))
+	dom := "((as const (Array String Bool)) false)"
+	val := "((as const (Array String String)) \"\")"
+	for _, n := range order {
+		dom = fmt.Sprintf("(store %s %s true)", dom, strLit(n))
+		val = fmt.Sprintf("(store %s %s %s)", val, strLit(n), caps[n])
+	}
+	m := vc.define("match_groups", ms, ite(ok, mkMap(ms, dom, val, "false"), vc.S.Zero(mt)))
+	return Val{T: resT, Tuple: []Val{{T: types.Typ[types.Bool], Term: ok}, {T: mt, Term: m}}}
 }
